@@ -51,3 +51,82 @@ Print Assumptions C17_byte_prefix_refuted.
 (* non-vacuity of the valid_utf8 premise *)
 Example C17_valid_example : valid_utf8 text_ee_b.
 Proof. vm_compute. reflexivity. Qed.
+
+(* ---------- re-reading (Proofs/Relex.v, Proofs/RelexP.v) ----------
+   The fragment: lines of blank-separated words, each quoted in ONE of the three styles (double
+   quotes, single quotes, unquoted with blanks escaped), values made of word characters and blanks
+   (the property's value alphabet), the word under the cursor an open double quote, an open single
+   quote, an unquoted word or nothing.  For such lines, of any length, Split hands the wrapped action
+   exactly the earlier values and the value under the cursor, keeps the text in front of it, and EVERY
+   candidate re-reads as the earlier values followed by the candidate's value (and the empty word for
+   the cursor when a blank was appended).  Earlier words must be ASCII: without that premise the
+   dependency's Words() merges words (C17_adjoins_nonascii_refuted = the known finding).
+   Outside the fragment (operators, comments, mixed quoting inside one word) the decision stays with the
+   harness and the real lexer. *)
+From CV Require Import Base.Utf8 Model.Common Proofs.Relex Proofs.RelexP.
+
+Theorem C17_word_roundtrip : forall wb prev st rs k c i tail,
+  Forall (wordish wb) rs -> item_runes st rs <> [] -> word_end tail ->
+  scan_loop wb prev (repeat 32%N k ++ item_runes st rs ++ tail) (mkScan tok0 SStart c i) =
+  RTok (word_tok st rs (i + k)) SInWord tail (i + k + length (item_runes st rs)).
+Proof. exact word_scan. Qed.
+Print Assumptions C17_word_roundtrip.
+
+Theorem C17_requote_is_item : forall wb st rs, Forall (wordish wb) rs ->
+  requote st (encode_runes rs) = encode_runes (item_runes st rs).
+Proof. exact requote_runes. Qed.
+Print Assumptions C17_requote_is_item.
+
+Theorem C17_relex_line : forall wb its n,
+  Forall (good_item wb) its -> Forall separated (tl its) -> (its <> [] -> n = 0 \/ 1 <= n) ->
+  shlex_split wb (line_bytes its ++ repeat (byte 32) n) = toks 0 its ++ trail_toks (length (line_runes its)) n.
+Proof. exact relex_line. Qed.
+Print Assumptions C17_relex_line.
+
+Theorem C17_split_context_line : forall wb its k st u,
+  Forall (good_item wb) its -> Forall ascii_item its -> Forall separated (tl its) -> (its <> [] -> 1 <= k) ->
+  cur_ok st u -> Forall (wordish wb) u ->
+  split_context true false wb (typed its k st u) =
+  mkSplit (values its) (encode_runes u) (line_bytes its ++ repeat (byte 32) k) st false.
+Proof. exact split_context_line. Qed.
+Print Assumptions C17_split_context_line.
+
+Theorem C17_split_line_relex : forall wb its k st u (i : invoked) r,
+  Forall (good_item wb) its -> Forall ascii_item its -> Forall separated (tl its) -> (its <> [] -> 1 <= k) ->
+  cur_ok st u -> Forall (wordish wb) u ->
+  (forall y, In y (snd i) -> exists rs, value y = encode_runes rs /\ Forall (wordish wb) rs /\ ascii_runes rs /\ rs <> []) ->
+  In r (split_values (split_context true false wb (typed its k st u)) i) ->
+  exists y, In y (snd i) /\
+    has_prefix (value r) (line_bytes its ++ repeat (byte 32) k) = true /\
+    map t_value (words (shlex_split wb (value r))) =
+    values its ++ [value y] ++ (if sm_matches (nospace (fst i)) (value y) then [] else [[]]).
+Proof. exact split_line_relex. Qed.
+Print Assumptions C17_split_line_relex.
+
+Theorem C17_splitp_line_relex : forall wb its k st u (i : invoked) r, ops_break wb ->
+  Forall (good_item wb) its -> Forall ascii_item its -> Forall separated (tl its) -> (its <> [] -> 1 <= k) ->
+  cur_ok st u -> Forall (wordish wb) u ->
+  (forall y, In y (snd i) -> exists rs, value y = encode_runes rs /\ Forall (wordish wb) rs /\ ascii_runes rs /\ rs <> []) ->
+  In r (split_values (split_context true true wb (typed its k st u)) i) ->
+  exists y, In y (snd i) /\
+    has_prefix (value r) (line_bytes its ++ repeat (byte 32) k) = true /\
+    map t_value (words (filter_redirects (current_pipeline (shlex_split wb (value r))))) =
+    values its ++ [value y] ++ (if sm_matches (nospace (fst i)) (value y) then [] else [[]]).
+Proof. exact split_line_relex_p. Qed.
+Print Assumptions C17_splitp_line_relex.
+
+Theorem C17_bash_operators_break : ops_break bash_wordbreaks.
+Proof. exact bash_ops_break. Qed.
+Print Assumptions C17_bash_operators_break.
+
+Theorem C17_line_premises_satisfiable :
+  Forall (good_item bash_wordbreaks) ex_its /\ Forall ascii_item ex_its /\ Forall separated (tl ex_its) /\
+  (ex_its <> [] -> 1 <= 1) /\ cur_ok SQE ex_u /\ Forall (wordish bash_wordbreaks) ex_u.
+Proof. exact ex_line_premises. Qed.
+Print Assumptions C17_line_premises_satisfiable.
+
+Theorem C17_adjoins_nonascii_refuted :
+  map t_value (shlex_split bash_wordbreaks (B [195;169;32;98])) = [B [195;169]; B [98]] /\
+  map t_value (words (shlex_split bash_wordbreaks (B [195;169;32;98]))) = [B [195;169;98]].
+Proof. exact adjoins_nonascii_refuted. Qed.
+Print Assumptions C17_adjoins_nonascii_refuted.
